@@ -132,8 +132,8 @@ class Gf180Walker(h.HierarchyWalker):
         # Map none to default, otherwise leave alone
         mostype = h.MosType.NMOS if params.tp is None else params.tp
         mosfam = h.MosFamily.CORE if params.family is None else params.family
-        mosvth = h.MosVth.STD if params.vth is None else params.vth
-        args = (mostype, mosfam, mosvth)
+        # Note this PDK's devices are not distinguished by threshold; its table keys carry type and family only.
+        args = (mostype, mosfam)
 
         # Find all the xtors that match the args
         subset = {}
@@ -150,6 +150,9 @@ class Gf180Walker(h.HierarchyWalker):
 
         if len(subset) >= 2:
             msg = f"Mos module choice not well-defined given parameters {args}"
+            raise RuntimeError(msg)
+        if not subset:
+            msg = f"No Mos module for parameters {args}"
             raise RuntimeError(msg)
 
         # Return the first one (supported as of 3.7)
@@ -226,7 +229,7 @@ class Gf180Walker(h.HierarchyWalker):
         w = self.scale_param(params.w, 1000 * MILLI)
         l = self.scale_param(params.l, 1000 * MILLI)
 
-        modparams = GF180CapParams(c_width=w, c_length=l)
+        modparams = GF180CapParams(c_width=w, c_length=l, m=params.mult or 1)
 
         modcall = mod(modparams)
         CACHE.cap_modcalls[params] = modcall
